@@ -11,7 +11,21 @@ from props import c01 as base
 
 ID = "C04"
 LEAN_TARGETS = ["TornadoModel.C04.Props"]
-THEOREMS = ["TornadoModel.C04.stub"]
+THEOREMS = [
+    "TornadoModel.C04.delivered_le_limit",
+    "TornadoModel.C04.delivered_le_limit_eof",
+    "TornadoModel.C04.withinLimits_run",
+    "TornadoModel.C04.gz_delivered_le_limit",
+    "TornadoModel.C04.header_oversize_closed",
+    "TornadoModel.C04.header_unterminated_closed",
+    "TornadoModel.C04.header_at_limit_ok",
+    "TornadoModel.C04.cl_oversize_rejected",
+    "TornadoModel.C04.cl_at_limit_ok",
+    "TornadoModel.C04.oversize_body_closed",
+    "TornadoModel.C04.chunk_oversize_rejected",
+    "TornadoModel.C04.chunk_at_limit_ok",
+    "TornadoModel.C04.gz_oversize_rejected",
+]
 TRUSTED = base.TRUSTED + [
     "zlib / tornado.util.GzipDecompressor: only the contract 'unconsumed_tail is a suffix of the input' is used; the "
     "answers of the real decompressor are recorded per call and replayed into the model",
@@ -28,11 +42,11 @@ RULE = ("limits 1..4096 for the body, 40..600 for the header block, sizes limit-
         "of its limit or beyond it; distinct by canonical JSON")
 EXHAUSTIVE = {"quick": False, "thorough": False}
 CLAUSES = {
-    "header block larger than max_header_size is refused and the connection closed": "header_oversize_closed, header_at_limit_ok",
-    "declared body larger than max_body_size (or the per-request override) refused": "cl_oversize_rejected, cl_at_limit_ok",
+    "header block larger than max_header_size is refused and the connection closed": "header_oversize_closed, header_unterminated_closed, header_at_limit_ok",
+    "declared body larger than max_body_size (or the per-request override) refused": "cl_oversize_rejected, oversize_body_closed, cl_at_limit_ok",
     "chunked body larger than the limit refused": "chunk_oversize_rejected, chunk_at_limit_ok",
     "gzip body decompressing beyond the limit refused": "gz_oversize_rejected",
-    "application is handed at most max_body_size body bytes": "delivered_le_limit (all streams, segmentations, overrides), gz_delivered_le_limit (all decompressor behaviours)",
+    "application is handed at most max_body_size body bytes": "delivered_le_limit, delivered_le_limit_eof, withinLimits_run (all streams, segmentations, overrides), gz_delivered_le_limit (all decompressor behaviours)",
     "requests within the limits are unaffected": "tie only: limits_monotone_goal; boundary exactness by *_at_limit_ok; checked on every case against Spec.readAll",
 }
 PARALLEL = True
